@@ -571,6 +571,33 @@ func runSerialExtra(raw json.RawMessage, seed int64) (res Result) {
 			}
 		}
 	}
+	// decoding is a function of the bytes alone, whatever was decoded before: a key, then the opposite key (the same bytes but one
+	// header bit), then the first again, the same for a key and its double, and for the identity in between
+	for rep := 0; rep < 3; rep++ {
+		x := w.Scalar(fmt.Sprintf("dec-seq-%d", rep))
+		a := w.SK(x).PublicKey().Encode()
+		neg := w.SK(new(big.Int).Sub(ref.R, x)).PublicKey().Encode()
+		dbl := w.SK(new(big.Int).Mod(new(big.Int).Lsh(x, 1), ref.R)).PublicKey().Encode()
+		applyInf := make([]byte, 96)
+		applyInf[0] = 0xC0
+		var first crypto.PublicKey
+		for k, b := range [][]byte{a, neg, a, dbl, applyInf, neg, a} {
+			pk, err := crypto.DecodePublicKey(crypto.BLSBLS12381, append([]byte(nil), b...))
+			res.Evals++
+			if err != nil {
+				add("AcceptsExactlyCanonical", fmt.Sprintf("canonical key encoding %x refused as decode number %d of a sequence: %v", b, k+1, err))
+				continue
+			}
+			if !bytes.Equal(pk.Encode(), b) {
+				add("ReencodeIsInput", fmt.Sprintf("decode number %d of a sequence (key, opposite key, key, double, identity, ...): %x re-encodes to %x", k+1, b, pk.Encode()))
+			}
+			if k == 0 {
+				first = pk
+			} else if pk.Equals(first) != bytes.Equal(b, a) {
+				add("ReencodeIsInput", fmt.Sprintf("decode number %d of a sequence: Equals(first key) = %v for bytes %x vs %x", k+1, pk.Equals(first), b, a))
+			}
+		}
+	}
 	// x >= p at EVERY magnitude of x - p: for each bit position b, x - p next to 2^b (just above, just below, a random value of
 	// that bit length), always the abscissa of a curve point, so that "x is not reduced" is the only reason to refuse the string.
 	// AggregateBLSSignatures parses without a subgroup test: a comparison with p that goes wrong anywhere shows as an acceptance.
